@@ -434,6 +434,11 @@ fn main() {
 
     println!("Factores de paso ({}): {}", orig_fp, param_fp);
 
+    // Actualiza metadato CTE_LOCALIZACION a la localización usada para generar los factores
+    if orig_fp != "archivo" {
+        components.set_meta("CTE_LOCALIZACION", &param_fp);
+    }
+
     // Simplificación de los factores de paso -----------------------------------------------------
     if !matches.is_present("nosimplificafps") && !components.data.is_empty() {
         let oldfplen = fpdata.wdata.len();
